@@ -424,7 +424,7 @@ def value_set(ctx, func, node, expr, depth=5, limit=64, stop=None):
 # ------------------------------------------------------------------ call sites vs signatures
 ARG_SCOPE = {
     "C01": ["rrule.rrule", "rrule._iterinfo"], "C10": ["rrule.rruleset"], "C12": ["rrule.rrulebase"], "C13": ["rrule._rrulestr"],
-    "C02": ["parser._parser.parser", "parser._parser._ymd", "parser._parser.parserinfo"], "C15": ["parser._parser.parser"],
+    "C02": ["parser._parser.parser", "parser._parser._ymd", "parser._parser.parserinfo", "parser._parser._resultbase"], "C15": ["parser._parser.parser"],
     "C03": ["relativedelta.relativedelta"], "C07": ["parser.isoparser.isoparser"], "C20": ["parser.isoparser.isoparser"],
     "C06": ["tz.tz.tzfile"], "C08": ["tz.tz.tzstr", "tz.tz.tzrange", "parser._parser._tzparser"], "C17": ["tz.tz.tzical", "tz.tz._tzicalvtz"],
     "C04": ["tz._common._tzinfo", "tz._common.tzrangebase", "tz.tz.tzutc", "tz.tz.tzoffset", "tz.tz.tzlocal"],
@@ -492,6 +492,9 @@ def presence_tests(fnode):
 
     def operand(e):
         from .model import attr_chain
+        if isinstance(e, ast.Call) and isinstance(e.func, ast.Name) and e.func.id == "getattr" and len(e.args) == 2 and not e.keywords \
+                and all(isinstance(a, (ast.Name, ast.Constant)) for a in e.args):
+            return "getattr(%s, <name>)" % src(e.args[0])        # a field read by name: the loop variable's name is not part of the question
         return ".".join(attr_chain(e)) if attr_chain(e) else None
 
     def visit_test(e):
@@ -507,7 +510,7 @@ def presence_tests(fnode):
             if o:
                 out.setdefault(o, set()).add("none")
             return
-        o = operand(e) if isinstance(e, (ast.Name, ast.Attribute)) else None
+        o = operand(e) if isinstance(e, (ast.Name, ast.Attribute, ast.Call)) else None
         if o:
             out.setdefault(o, set()).add("truthy")
     for n in walk_local(fnode):
@@ -522,6 +525,10 @@ def presence_tests(fnode):
         elif isinstance(n, ast.comprehension):
             for c in n.ifs:
                 visit_test(c)
+        elif isinstance(n, (ast.GeneratorExp, ast.ListComp, ast.SetComp)) and (isinstance(n.elt, (ast.Compare, ast.BoolOp)) or (
+                isinstance(n.elt, ast.UnaryOp) and isinstance(n.elt.op, ast.Not))):
+            # sum(<test> for ...), any(...), all(...): the element is a test
+            visit_test(n.elt)
     return out
 
 
@@ -693,6 +700,24 @@ def statements_mentioning(names, within=None):
             size = sum(1 for st in span for _ in ast.walk(st))
             if best is None or size < best[0]:
                 best = (size, span)
+        return best[1] if best else []
+    return pick
+
+
+def ifs_testing(names):
+    """pick-function: the `if` statement(s) whose own test mentions every name in `names` (smallest such statement)."""
+    names = set(names)
+
+    def pick(fnode):
+        best = None
+        for block in _blocks(fnode):
+            for st in block:
+                if isinstance(st, ast.If):
+                    m = set(x.id for x in ast.walk(st.test) if isinstance(x, ast.Name)) | set(x.attr for x in ast.walk(st.test) if isinstance(x, ast.Attribute))
+                    if names <= m:
+                        size = sum(1 for _ in ast.walk(st))
+                        if best is None or size < best[0]:
+                            best = (size, [st])
         return best[1] if best else []
     return pick
 
@@ -879,3 +904,137 @@ def check_stale_publication(ctx, rule):
                            analysis="generation tokens of _invalidate_cache + must-hold branch facts + no yield between test and store")
     ctx.floor(rule, n_w, 3, "stores to shared per-generation state in iterators of invalidatable classes")
     return gen
+
+
+# ------------------------------------------------------------------------------------------------ lazily imported globals
+def check_lazy_imports(ctx, rule, modname):
+    """A module-level name that starts as None and is bound by `global X` + an import inside functions (dateutil.rrule's
+    `parser`): every read of X in a function is preceded on every path by that function's own import of X, or lies behind
+    the guard `not X` (the false edge of a test `not X` / `not X and C`: X was bound before).  Otherwise the first call in
+    a process that takes that path finds None - the answer depends on which other calls ran before."""
+    prog = ctx.prog
+    full = modname if modname.startswith("dateutil") else "dateutil." + modname
+    mod = prog.modules[full]
+    tree = mod.tree
+    none_names = set()
+    imported_top = set()
+    for st in tree.body:
+        if isinstance(st, ast.Assign) and isinstance(st.value, ast.Constant) and st.value.value is None:
+            for t in st.targets:
+                if isinstance(t, ast.Name):
+                    none_names.add(t.id)
+        if isinstance(st, (ast.Import, ast.ImportFrom)):
+            for al in st.names:
+                imported_top.add((al.asname or al.name).split(".")[0])
+    lazy = set()
+    for f in prog.active_functions():
+        if not f.qualname.startswith(full + "."):
+            continue
+        for x in walk_local(f.node):
+            if isinstance(x, ast.Global):
+                lazy |= set(x.names) & none_names
+    n_use = 0
+    for X in sorted(lazy):
+        if X in imported_top:
+            continue
+        for f in prog.active_functions():
+            if not f.qualname.startswith(full + "."):
+                continue
+            stores = [x for x in walk_local(f.node) if isinstance(x, ast.Name) and x.id == X and isinstance(x.ctx, ast.Store)]
+            is_global = any(isinstance(x, ast.Global) and X in x.names for x in walk_local(f.node))
+            if (stores or X in f.params) and not is_global:
+                continue            # a local of the same name
+            # the discipline is per function: one that imported X itself in the confirmed tree (or is new) must keep doing so;
+            # one that relies on its caller's protocol (the constructor imported it: `easter` in _iterinfo.rebuild) is not
+            # decided here
+            try:
+                from . import summ as _summ
+                btree = ast.parse(_summ.baseline_body(f.qualname))
+                base_imports = any(isinstance(x, (ast.Import, ast.ImportFrom)) and any((al.asname or al.name).split(".")[0] == X for al in x.names) for x in ast.walk(btree))
+                if not base_imports:
+                    continue
+            except AnalysisError:
+                pass
+            cfg = ctx.cfg(f)
+            imports = [n for n in cfg.live_nodes() if n.kind == "stmt" and isinstance(n.ast, (ast.Import, ast.ImportFrom))
+                       and any((al.asname or al.name).split(".")[0] == X for al in n.ast.names)]
+            guards = []
+            for b in cfg.live_nodes():
+                if b.kind != "branch" or b.ast is None:
+                    continue
+                t = b.ast
+                conj = t.values if isinstance(t, ast.BoolOp) and isinstance(t.op, ast.And) else [t]
+                if any(isinstance(c, ast.UnaryOp) and isinstance(c.op, ast.Not) and isinstance(c.operand, ast.Name) and c.operand.id == X for c in conj) or \
+                        any(isinstance(c, ast.Compare) and len(c.ops) == 1 and isinstance(c.ops[0], ast.Is) and isinstance(c.left, ast.Name) and c.left.id == X
+                            and isinstance(c.comparators[0], ast.Constant) and c.comparators[0].value is None for c in conj):
+                    guards.append((b, "false"))
+            for n in cfg.live_nodes():
+                if n.ast is None or n.kind not in ("stmt", "branch") or n in imports:
+                    continue
+                if any((b is n) for b, _ in guards):
+                    continue
+                root = n.ast
+                uses = [x for x in ast.walk(root) if isinstance(x, ast.Attribute) and isinstance(x.value, ast.Name) and x.value.id == X and isinstance(x.value.ctx, ast.Load)]
+                if not uses:
+                    continue
+                n_use += 1
+                path = cfg.path_avoiding(cfg.entry, [n], avoid_nodes=imports, avoid_edges=guards)
+                ok = path is None and (is_global or not imports)
+                ctx.ob(rule, f, "the lazily imported module `%s` (None until some function imports it) is imported on every path before it is used" % X, ok,
+                       construct="%s: use of %s in `%s`" % (f.name, X, stmt_text(n)[:60]),
+                       detail="" if ok else "path from entry without `import %s`: %s - works only if another call imported it earlier in the process" % (
+                           X, " -> ".join("L%d" % p_.lineno for p_ in (path or []) if p_.lineno)[:200]),
+                       analysis="CFG must-pass-through (import statements, `not %s` guards)" % X)
+    return n_use
+
+
+# ------------------------------------------------------------------------------------------------ no state between calls
+def shared_state_writes(prog, modname):
+    """[(FuncInfo, node, text)] - stores into, and mutator calls on, objects that outlive the call and are shared by all
+    callers: attributes of a class object (`cls.X`, `ClassName.X`, `type(self).X`, `self.__class__.X`) and module globals
+    (declared `global`, or module-level containers mutated in place).  Instance state (`self.X`) is not shared state."""
+    from .rules_lock import MUTATORS
+    full = modname if modname.startswith("dateutil") else "dateutil." + modname
+    mod = prog.modules[full]
+    class_names = set(mod.classes)
+    mod_containers = set(k for k, v in mod.assigns.items() if isinstance(v, (ast.List, ast.Dict, ast.Set)) or (
+        isinstance(v, ast.Call) and src(v.func) in ("dict", "list", "set", "OrderedDict", "collections.OrderedDict", "defaultdict", "collections.defaultdict")))
+    out = []
+    for f in prog.active_functions():
+        if not f.qualname.startswith(full + "."):
+            continue
+        is_cm = any(d.split(".")[-1] == "classmethod" for d in f.decorators)
+        cls_param = f.params[0] if (is_cm and f.params) else None
+        globals_ = set()
+        for x in walk_local(f.node):
+            if isinstance(x, ast.Global):
+                globals_ |= set(x.names)
+        local_stores = set(x.id for x in walk_local(f.node) if isinstance(x, ast.Name) and isinstance(x.ctx, ast.Store)) | set(f.params)
+
+        def shared_base(e):
+            """e is an expression denoting shared storage (or an item / attribute inside it)"""
+            while isinstance(e, (ast.Subscript, ast.Attribute)):
+                inner = e.value
+                if isinstance(e, ast.Attribute):
+                    if isinstance(inner, ast.Name) and (inner.id == cls_param or (inner.id in class_names and inner.id not in local_stores)):
+                        return True
+                    if src(inner) in ("self.__class__", "type(self)"):
+                        return True
+                e = inner
+            if isinstance(e, ast.Name) and e.id in mod_containers and e.id not in local_stores:
+                return True
+            return False
+        for x in walk_local(f.node):
+            if isinstance(x, (ast.Assign, ast.AugAssign, ast.Delete)):
+                tg = x.targets if isinstance(x, (ast.Assign, ast.Delete)) else [x.target]
+                for t in tg:
+                    for y in ([t] if not isinstance(t, (ast.Tuple, ast.List)) else t.elts):
+                        if isinstance(y, (ast.Subscript, ast.Attribute)) and shared_base(y):
+                            out.append((f, x, src(x).split("\n")[0]))
+                        elif isinstance(y, ast.Name) and y.id in globals_ and not isinstance(x, ast.Delete):
+                            # (re)binding a module global: lazy imports are import statements, not assignments
+                            out.append((f, x, src(x).split("\n")[0]))
+            elif isinstance(x, ast.Call) and isinstance(x.func, ast.Attribute) and x.func.attr in MUTATORS and shared_base(ast.Attribute(value=x.func.value, attr="_", ctx=ast.Load())
+                                                                                                             if not isinstance(x.func.value, ast.Name) else x.func.value):
+                out.append((f, x, src(x).split("\n")[0]))
+    return out
